@@ -36,6 +36,24 @@ func (vc *VC) preamble(flags map[int]bool) string {
 	return vc.preambleOpt(flags, false)
 }
 
+// preambleFor: the hypotheses in scope of obligation o (program order).
+func (vc *VC) preambleFor(flags map[int]bool, o *Oblig, qfOnly bool) string {
+	var sb strings.Builder
+	sb.WriteString(vc.header(flags))
+	for i, a := range vc.asserts {
+		if !(i < o.Upto || vc.aglobal[i]) {
+			continue
+		}
+		if qfOnly && (strings.Contains(a, "(forall ") || strings.Contains(a, "(exists ")) {
+			continue
+		}
+		sb.WriteString("(assert ")
+		sb.WriteString(a)
+		sb.WriteString(")\n")
+	}
+	return sb.String()
+}
+
 // preambleOpt: with qfOnly the quantified hypotheses are dropped (a weaker
 // hypothesis set: used only to obtain candidate counterexamples quickly).
 func (vc *VC) preambleOpt(flags map[int]bool, qfOnly bool) string {
@@ -82,7 +100,7 @@ func (vc *VC) header(flags map[int]bool) string {
 }
 
 func (vc *VC) slicedAsserts(sl *slicer, o *Oblig) string {
-	inc := sl.slice(o.Guard, o.Goal)
+	inc := sl.slice(o.Upto, o.Guard, o.Goal)
 	var sb strings.Builder
 	for i, a := range vc.asserts {
 		if inc[i] {
@@ -335,7 +353,7 @@ func solveUnit(vc *VC, opts SolveOpts) map[int]bool {
 			// first on the sliced hypothesis set, then on the full one
 			recheck(vc, hdr+vc.slicedAsserts(sl, o), o, opts)
 			if o.Status != "unsat" {
-				recheck(vc, pre, o, opts)
+				recheck(vc, vc.preambleFor(flags, o, false), o, opts)
 			}
 			if o.Status != "unsat" {
 				o.Model = ""
@@ -346,7 +364,7 @@ func solveUnit(vc *VC, opts SolveOpts) map[int]bool {
 				for _, k := range keys {
 					values = append(values, k.Term)
 				}
-				st, model, _, _ := singleQuery(solvers[0], vc.preambleOpt(flags, true), o, 5000, values)
+				st, model, _, _ := singleQuery(solvers[0], vc.preambleFor(flags, o, true), o, 5000, values)
 				if st == "sat" && len(keys) > 0 {
 					vals := parseModelOrdered(model)
 					mm := map[string]string{}
@@ -367,7 +385,7 @@ func solveUnit(vc *VC, opts SolveOpts) map[int]bool {
 		for _, i := range idx {
 			o := vc.obligs[i]
 			if o.Status != "unsat" {
-				q := pre + fmt.Sprintf("(assert %s)\n(assert (not %s))\n(check-sat)\n", o.Guard, o.Goal)
+				q := vc.preambleFor(flags, o, false) + fmt.Sprintf("(assert %s)\n(assert (not %s))\n(check-sat)\n", o.Guard, o.Goal)
 				os.WriteFile(filepath.Join(opts.DumpDir, sanitize(o.Name)+".smt2"), []byte(q), 0o644)
 				q2 := hdr + vc.slicedAsserts(sl, o) + fmt.Sprintf("(assert %s)\n(assert (not %s))\n(check-sat)\n", o.Guard, o.Goal)
 				os.WriteFile(filepath.Join(opts.DumpDir, sanitize(o.Name)+".sliced.smt2"), []byte(q2), 0o644)
